@@ -63,6 +63,7 @@ class Unit:
         self.flags = []
         self.sections = []
         self.retag = []
+        self.features = []
         self.sitetag = []
         self.path = None
 
@@ -120,6 +121,8 @@ def parse_unit(name):
                         raise SystemExit("%s: unterminated @global" % path)
                     buf += "\n" + lines[j]
             i = j
+        elif key == "@feature":
+            u.features += rest.split()
         elif key == "@sitetag":
             w = rest.split()
             u.sitetag.append((w[0], w[1], w[2:]))
@@ -490,6 +493,8 @@ def assemble(unit, twin=False):
     text = expand_toks_templates(text)
     text, table, code = intern_tokens(text)
     full = "// GENERATED by vx from units/%s.vxu and %s's working tree - do not edit\n%s" % (unit.name, REPO, table)
+    for ft in unit.features:
+        full += "#![feature(%s)]\n" % ft
     full += "#![allow(unused_imports, unused_variables, unused_mut, dead_code, unused_parens, unused_braces, non_snake_case, unused_assignments)]\nuse vstd::prelude::*;\nverus!{\n" + text + "\n} // verus!\nfn main(){}\n"
     a.text = full
     # 2. tags
